@@ -254,9 +254,14 @@ LoadStatus DepsLog::Load(const string& path, State* state, string* err) {
         break;
       }
       // There can be up to 3 bytes of padding.
-      if (buf[path_size - 1] == '\0') --path_size;
-      if (buf[path_size - 1] == '\0') --path_size;
-      if (buf[path_size - 1] == '\0') --path_size;
+      for (int i = 0; i < 3 && path_size > 0 && buf[path_size - 1] == '\0';
+           ++i)
+        --path_size;
+      if (path_size == 0) {
+        // Nothing but padding: not a path.
+        read_failed = true;
+        break;
+      }
       StringPiece subpath(buf, path_size);
       // It is not necessary to pass in a correct slash_bits here. It will
       // either be a Node that's in the manifest (in which case it will already
